@@ -2,14 +2,14 @@
 """regenerates MANIFEST.json from registry.json (+ manifest_meta.json for the prose)"""
 import json, os
 ROOT = os.path.dirname(os.path.abspath(__file__))
-reg = json.load(open(os.path.join(ROOT, "registry.json")))
+reg = {fn[:-5]: json.load(open(os.path.join(ROOT, "registry.d", fn))) for fn in sorted(os.listdir(os.path.join(ROOT, "registry.d"))) if fn.endswith(".json")}
 meta = json.load(open(os.path.join(ROOT, "manifest_meta.json")))
 props = [json.loads(l) for l in open(os.path.join(ROOT, "properties.jsonl"))]
 checks, na = [], []
 for p in props:
     pid = p["id"]
     if pid in reg and not reg[pid].get("disabled"):
-        m = meta["checks"].get(pid, {})
+        m = reg[pid].get("manifest", {})
         checks.append({
             "property_id": pid,
             "quick_cmd": "./check %s --tier quick" % pid,
